@@ -1098,7 +1098,12 @@ theorem setItem_error_tree (fuel : Nat) (t : Val) (xp : Str) (v t' : Val) (e : P
           simp only [hfind] at h
           right
           refine ⟨r, ?_⟩
-          rw [setItem_tail_error root1 _ _ _ v t' e h]
+          -- the hidden-list part (fix C03-e) raises or hands over another place: the tree is `root1` either way
+          cases hhid : hiddenPlace fuel root1 r with
+          | error e' => simp only [hhid] at h; cases h; rfl
+          | ok r' =>
+            simp only [hhid] at h
+            rw [setItem_tail_error root1 _ _ _ v t' e h]
       · rw [if_neg hpc] at h; cases h
   | _ => simp only [setItem] at h; cases h; left; rfl
 
